@@ -147,3 +147,56 @@ Theorem C10_off_by1_suggestion_differs :
     eval en (rw_lhs (rw_off_by1 x)) = Some (RPanic, []) /\ eval en (rw_rhs (rw_off_by1 x)) = Some (RVal (VInt 7), []).
 Proof. exact off_by1_suggestion_differs. Qed.
 Print Assumptions C10_off_by1_suggestion_differs.
+
+(* ---------------- more rule triples ---------------- *)
+Theorem C10_strings_compare_preserves : forall en, env_ok en -> forall s1 s2,
+  typeof s1 = Some TString -> typeof s2 = Some TString ->
+  preserves en (rw_compare OEq lit0 OEq s1 s2) /\ preserves en (rw_compare OEq litm1 OLt s1 s2) /\
+  preserves en (rw_compare OLt lit0 OLt s1 s2) /\ preserves en (rw_compare OEq lit1 OGt s1 s2) /\
+  preserves en (rw_compare OGt lit0 OGt s1 s2).
+Proof. exact strings_compare_preserves. Qed.
+Print Assumptions C10_strings_compare_preserves.
+
+(* yodaStyleExpr: `lit == x` => `x == lit`, `lit != x` => `x != lit`, for every operand type, NaN included *)
+Theorem C10_yoda_style_preserves : forall en o k s t x,
+  (o = OEq \/ o = ONe) -> typeof (ELit k s t) <> None -> preserves en (rw_yoda o (ELit k s t) x).
+Proof. exact yoda_preserves. Qed.
+Print Assumptions C10_yoda_style_preserves.
+
+(* ---------------- statement-level rules (Model_Stmt) ---------------- *)
+From GC Require Import Model_Stmt Proofs_Stmt.
+
+(* assignOp: `x = x op y` => `x op= y` under the rule's filter (x without opaque calls), y arbitrary *)
+Theorem C10_assign_op_preserves : forall en l o e h,
+  env_ok en -> is_arith o = true -> lval_pure l = true ->
+  exec en (assign_op_lhs l o e) h = exec en (assign_op_rhs l o e) h.
+Proof. exact assign_op_preserves. Qed.
+Print Assumptions C10_assign_op_preserves.
+
+Theorem C10_assign_incdec_preserves : forall en l (inc : bool) h,
+  env_ok en -> lval_pure l = true ->
+  (match l with LVar _ t => t = TInt | LIdx _ _ => True end) ->
+  exec en (assign_op_lhs l (if inc then OAdd else OSub) (ELit LInt "1" TInt)) h = exec en (SIncDec l inc) h.
+Proof. exact assign_incdec_preserves. Qed.
+Print Assumptions C10_assign_incdec_preserves.
+
+(* switchTrue: a tag that always evaluates to true without events can be dropped *)
+Theorem C10_switch_true_preserves : forall en t cases dflt h,
+  (forall h', evalS en t h' = Some (RVal (VBool true), h')) ->
+  exec en (switch_true_lhs t cases dflt) h = exec en (switch_true_rhs cases dflt) h.
+Proof. exact switch_true_preserves. Qed.
+Print Assumptions C10_switch_true_preserves.
+
+(* valSwap is not an equivalence: with side effects in the operands, and — even for pure operands — when
+   the index of one operand mentions the other (`tmp := b; b = xs[b]; xs[b] = tmp`) *)
+Theorem C10_val_swap_impure_refuted :
+  exists en x y, env_ok en /\
+    observe (exec en (val_swap_lhs "tmp" TInt x y) []) <> observe (exec en (val_swap_rhs x y) []).
+Proof. exact val_swap_impure_refuted. Qed.
+Print Assumptions C10_val_swap_impure_refuted.
+
+Theorem C10_val_swap_index_dependence_refuted :
+  exists en x y, env_ok en /\ lval_pure x = true /\ lval_pure y = true /\
+    observe (exec en (val_swap_lhs "tmp" TInt x y) []) <> observe (exec en (val_swap_rhs x y) []).
+Proof. exact val_swap_index_dependence_refuted. Qed.
+Print Assumptions C10_val_swap_index_dependence_refuted.
